@@ -58,11 +58,11 @@ func loadVectors() []vector {
 		return vectorCache
 	}
 	files := []struct{ glob, net string }{
-		{"/repo/history/testdata/test_data_collection_of_forks_blocks.yaml", "history"},
-		{"/repo/history/testdata/validation/*.yaml", "history"},
-		{"/repo/validation/testdata/header_with_proofs.json", "history"},
-		{"/repo/state/testdata/*.yaml", "state"},
-		{"/repo/beacon/testdata/types/*", "beacon"},
+		{repoRoot() + "/history/testdata/test_data_collection_of_forks_blocks.yaml", "history"},
+		{repoRoot() + "/history/testdata/validation/*.yaml", "history"},
+		{repoRoot() + "/validation/testdata/header_with_proofs.json", "history"},
+		{repoRoot() + "/state/testdata/*.yaml", "state"},
+		{repoRoot() + "/beacon/testdata/types/*", "beacon"},
 	}
 	var out []vector
 	for _, f := range files {
@@ -74,4 +74,12 @@ func loadVectors() []vector {
 	}
 	vectorCache = out
 	return out
+}
+
+// repoRoot is the checkout whose test data is read: /repo unless VERIF_REPO says otherwise.
+func repoRoot() string {
+	if r := os.Getenv("VERIF_REPO"); r != "" {
+		return r
+	}
+	return "/repo"
 }
